@@ -801,6 +801,25 @@ def index(base: T, idx: Tuple[T, ...], ranks: Optional[RankEnv] = None) -> T:
         if isinstance(base.iter, Range):
             v = add(base.iter.lo, mul(idx[0], base.iter.step))
             return substitute(base.elt, {base.var.key: v})
+    if isinstance(base, Cat) and len(base.parts) >= 2 and isinstance(base.parts[0], Lst) and len(base.parts[0].elems) == 1 \
+            and len(idx) == 1 and not isinstance(idx[0], Slc) and isinstance(idx[0], (Poly, Sym)):
+        # ([e0] + rest)[k]  ==  e0 if k == 0 else rest[k - 1]      (k >= 0: a position in the sequence)
+        k = idx[0]
+        cv = k.const_value() if isinstance(k, Poly) else None
+        rest = base.parts[1] if len(base.parts) == 2 else Cat(base.parts[1:])
+        if cv is None:
+            zero = compare("==", k, 0)
+            return PW([(negate(zero), index(rest, (add(k, -1),), ranks)), (zero, base.parts[0].elems[0])])
+        if cv == 0:
+            return base.parts[0].elems[0]
+        if cv > 0:
+            return index(rest, (add(k, -1),), ranks)
+    if isinstance(base, Idx) and len(base.idx) == 1 and isinstance(base.idx[0], Slc) and base.idx[0].step is None and base.idx[0].lo is None \
+            and len(idx) == 1 and not isinstance(idx[0], Slc):
+        # s[:hi][k] == s[k] for a position k of the prefix (k >= 0)
+        k_c = idx[0].const_value() if isinstance(idx[0], Poly) else None
+        if k_c is None or k_c >= 0:
+            return index(base.base, idx, ranks)
     if isinstance(base, Idx) and len(base.idx) == 1 and isinstance(base.idx[0], Slc) and base.idx[0].step is None and base.idx[0].hi is None \
             and base.idx[0].lo is not None and len(idx) == 1 and not isinstance(idx[0], Slc):
         # s[lo:][k] == s[lo + k] for constant lo, k >= 0 (tuple tails from `a, *rest = s`)
